@@ -6,6 +6,6 @@ PROP = dict(
     technique='property-based testing with a harness-owned network/timer schedule (stateful generation, history invariants)',
     rule='case = (DTLS version, suite, kind full/client-auth/resumed, PMTU in {256,300,512,1500}, adversarial decisions, data schedule, replay list); non-trivial = schedule has >= 1 drop and >= 1 duplicate/reorder, or at least one replay; distinct by (version, suite, kind, PMTU, which of drop/dup/reorder occurred, number of replays)',
     assumptions=['datagrams are never forged'],
-    targets=[dict(name='c16_dtls_sched', src=['props/C16/dtls_sched.cc', 'harness/wraps.c'], wraps=WRAPS, env={'VERIF_DIR': '/verif'},
+    targets=[dict(name='c16_dtls_sched', src=['props/C16/dtls_sched.cc', 'harness/wraps.c', 'harness/shim.c'], wraps=WRAPS, env={'VERIF_DIR': '/verif'},
                   quick=dict(cases=1500, secs=90), thorough=dict(cases=50000, secs=1500))],
 )
